@@ -277,6 +277,7 @@ def run(ctx, rep):
             uses_unwrap = any(cc in ("core::result::Result::<T, E>::expect", "core::result::Result::<T, E>::unwrap") for _, _, cc, _ in b.calls() if _ == t["t"])
             ok &= not uses_unwrap
         rep.check(ok, "R17.4", "R17.4|views|error_value", "view output errors are returned as values and reported as Fatal, not unwrapped", gv)
+    bufwriter_rules(ctx, rep, "R17.4")
 
     # ---------------- R17.5 whole packets
     swc = "fastpasta::write::lib::spawn_writer::{closure#0}"
@@ -288,3 +289,118 @@ def run(ctx, rep):
                   "the writer tests the stop flag between batches, before pushing a whole batch", swc)
     inner = [p for p in reach if p.startswith(BW) and any(cal == "core::sync::atomic::Atomic::<bool>::load" for bb, t, cal, c in cg.body(p).calls())]
     rep.check(not inner, "R17.5", "R17.5|no_stop_inside_flush", "no stop check inside push/flush (a batch is never cut in the middle)", BW, "stop flag read in %s" % inner)
+
+
+# ------------------------------------------------------------------ buffered writers (shared with C08)
+BW_NEW = ("std::io::buffered::bufwriter::BufWriter::<W>::new", "std::io::buffered::bufwriter::BufWriter::<W>::with_capacity",
+          "std::io::buffered::linewriter::LineWriter::<W>::new", "std::io::buffered::linewriter::LineWriter::<W>::with_capacity")
+BW_IMPL = ("<std::io::buffered::bufwriter::BufWriter<W> as std::io::Write>::", "<std::io::buffered::linewriter::LineWriter<W> as std::io::Write>::")
+
+
+def bufwriter_rules(ctx, rep, rule):
+    """A std::io::BufWriter swallows the error of the flush it performs when dropped.  Every BufWriter that reachable
+    code creates must therefore be flushed explicitly, with the result used, before it goes away:
+      * a BufWriter that stays local to the function that creates it: every path from a write through it to a
+        normal `Ok`/unit return passes `flush` on it;
+      * a BufWriter stored in a field: some function flushes that field, every path from a write to that field to an
+        Ok return of the (helpers-inlined) writing function passes the flush, and the owner's Drop reaches it."""
+    from ..mir import Body, inline_fn, path_count_range
+    f = ctx.facts()
+    cg = ctx.cg()
+    reach = ctx.reachable()
+    created = []
+    for p in sorted(reach):
+        fn = f.fns[p]
+        if not fn.get("mir") or fn.get("derived"):
+            continue
+        b = cg.body(p)
+        for bb, t, cal, c in b.calls():
+            if cal in BW_NEW:
+                created.append((p, bb, t))
+    if not created:
+        rep.ok(rule, "%s|bufwriter|none" % rule, "no std::io::BufWriter/LineWriter is created in reachable code", "")
+        return
+
+    def ok_targets(b):
+        oks = [i for i, j, s in b.stmts() if s["k"] == "assign" and s["rv"]["k"] == "agg" and s["rv"].get("vname") == "Ok" and (s["rv"].get("adt") or "").endswith("Result")]
+        return oks or b.return_blocks()
+
+    for p, bb, t in created:
+        b = cg.body(p)
+        dest = t["dest"]["l"]
+        name = b.names.get(dest) or "_%d" % dest
+        # does the value leave the function inside an aggregate (struct field / Option)?
+        field = None
+        for q in sorted(reach):
+            fnq = f.fns[q]
+            if not fnq.get("mir") or not q.startswith(p.rsplit("::", 1)[0]):
+                continue
+            for i, j, s in cg.body(q).stmts():
+                if s["k"] == "assign" and s["rv"]["k"] == "agg" and s["rv"].get("fnames") and q == p:
+                    for fname, op_ in zip(s["rv"]["fnames"], s["rv"]["ops"]):
+                        so = show_origin(b.origin(op_))
+                        if name in so or "BufWriter" in so:
+                            field = (s["rv"].get("adt"), fname)
+        short = p.split("::")[-1]
+        if field is None:
+            # provided trait methods (write_fmt behind writeln!) resolve to std::io::Write::*, so the receiver decides
+            def on_it(tt, bb_create=bb):
+                if not tt["args"]:
+                    return False
+                o = b.origin(tt["args"][0])
+                if any(c_[3] == bb_create for c_ in origin_calls(o)):
+                    return True
+                return re.search(r"(^|[^\w])%s([^\w]|$)" % re.escape(name), show_origin(o)) is not None
+            writes = [x for x, tt, cal, c in b.calls() if cal and cal.split("::")[-1] in ("write", "write_all", "write_fmt", "write_vectored")
+                      and ("io::Write" in cal or cal.startswith(BW_IMPL)) and on_it(tt)]
+            flushes = [x for x, tt, cal, c in b.calls() if cal and cal.endswith("::flush") and ("io::Write" in cal or cal.startswith(BW_IMPL)) and on_it(tt)]
+            into = [x for x, tt, cal, c in b.calls() if cal and "BufWriter" in cal and cal.endswith("::into_inner")]
+            bad = []
+            for w in writes:
+                r = path_count_range(b, w, ok_targets(b), flushes + into)
+                if r is not None and r[0] < 1:
+                    bad.append("write at bb%d can reach a normal return without flush" % w)
+            rep.check(not bad and (bool(flushes + into) or not writes), rule, "%s|bufwriter|%s|%s" % (rule, short, name),
+                      "the buffered writer `%s` created in %s is flushed (result used) on every path from a write to a normal return" % (name, short), p,
+                      "the buffered writer `%s` created in %s is dropped without an explicit flush: %s — an I/O error (closed pipe, full disk) at that point is discarded" % (name, short, bad or "no flush at all"))
+        else:
+            adt, fname = field
+            fl = []
+            wr = []
+            for q in sorted(reach):
+                fnq = f.fns[q]
+                if not fnq.get("mir"):
+                    continue
+                bq = cg.body(q)
+                for x, tt, cal, c in bq.calls():
+                    if cal and cal.startswith(BW_IMPL) and ("." + fname) in show_origin(bq.origin(tt["args"][0])):
+                        (fl if cal.endswith("::flush") else wr).append(q)
+            ok = bool(fl)
+            det = "flushed in %s, written in %s" % (sorted(set(x.split("::")[-1] for x in fl)), sorted(set(x.split("::")[-1] for x in wr)))
+            # from every public function of the owner that (transitively, same impl) writes, a flush follows before Ok
+            bad = []
+            owner_prefix = [q for q in reach if q.endswith("::flush") and adt and adt.split("::")[-1] in q]
+            for q in sorted(set(owner_prefix)):
+                bi = Body(inline_fn(f, q, lambda c, adt=adt: adt.split("::")[-1] in c and c in f.fns, max_depth=3, max_blocks=2000))
+                ws = [x for x, tt, cal, c in bi.calls() if cal and cal.startswith(BW_IMPL) and not cal.endswith("::flush") and ("." + fname) in show_origin(bi.origin(tt["args"][0]))]
+                fs = [x for x, tt, cal, c in bi.calls() if cal and cal.startswith(BW_IMPL) and cal.endswith("::flush") and ("." + fname) in show_origin(bi.origin(tt["args"][0]))]
+                # the Option holding the writer does not change between the write and the flush: from a write (Some side)
+                # the None edges of later tests of the same field are infeasible
+                none_edges = []
+                for x in bi.live_blocks():
+                    tt = bi.blocks[x]["t"]
+                    if tt["k"] == "switch" and ("." + fname) in show_origin(bi.origin(tt["d"])) and show_origin(bi.origin(tt["d"])).startswith("discr("):
+                        zero = [(x, v[1]) for v in tt["vals"] if v[0] == 0]
+                        none_edges += zero if zero else [(x, tt["else"])]
+                for w in ws:
+                    r = path_count_range(bi, w, ok_targets(bi), fs, none_edges)
+                    if r is not None and r[0] < 1:
+                        bad.append("%s: a write can reach Ok without flushing the inner writer" % q.split("::")[-1])
+            # the owner's Drop reaches a flushing function
+            drop = [q for q in f.fns if q.startswith("<%s" % adt) and q.endswith("as core::ops::drop::Drop>::drop")] if adt else []
+            reach_from_drop = cg.reachable(drop) if drop else set()
+            okd = bool(drop) and any(x in reach_from_drop for x in fl)
+            rep.check(ok and not bad and okd, rule, "%s|bufwriter_flushed|%s.%s" % (rule, adt.split("::")[-1] if adt else "?", fname),
+                      "the buffered writer stored in %s.%s is flushed explicitly after writing and from the owner's Drop (%s)" % (adt.split("::")[-1] if adt else "?", fname, det), p,
+                      "the buffered writer stored in %s.%s is never flushed with its result used (%s; %s; reached from Drop: %s): the error of its implicit flush on drop is discarded" % (
+                          adt.split("::")[-1] if adt else "?", fname, det, bad, okd))
